@@ -199,3 +199,10 @@ func vfQuietLock(p any) {}
 
 // vfDecodeOpaque: identity decoding of an opaque encoded buffer (engine only).
 func vfDecodeOpaque(b []byte, out any) bool { return false }
+
+// abstract file store (engine only)
+func vfFileFaults()                      {}
+func vfFileExists(name string) bool      { return false }
+func vfFileWrites(name string) int       { return 0 }
+func vfFileSet(name string, v any)       {}
+func vfFileJSON(name string, out any) bool { return false }
